@@ -6,7 +6,7 @@ KANI_TIMEOUT = int(os.environ.get("VERIF_KANI_TIMEOUT", "900"))
 
 def _run(repo, build, harnesses, extra=(), timeout=KANI_TIMEOUT):
     cmd = ["cargo", "kani", "--lib", "--target-dir", os.path.join(build, "kani"),
-           "-Z", "function-contracts", "-Z", "stubbing", "-j", "8", "--output-format", "terse"]
+           "-Z", "function-contracts", "-Z", "stubbing", "--output-format", "terse"]
     for h in harnesses:
         cmd += ["--harness", h]
     cmd += list(extra)
@@ -29,7 +29,7 @@ def _split(out):
     secs = {}
     cur = None
     for line in out.splitlines():
-        m = re.match(r"Checking harness (\S+?)\.\.\.", line)
+        m = re.match(r"(?:Thread \d+: )?Checking harness (\S+?)\.\.\.", line)
         if m:
             cur = m.group(1)
             secs[cur] = []
